@@ -17,6 +17,10 @@ func ParseValidNameKV(validName string) (key, value, cusMsg string) {
 	tmp := validName
 	// 因为 validName 中的 k, v 通过 = 连接
 	splitIndex := strings.Index(tmp, "=")
+	// "|" 出现在 "=" 之前, 说明 "=" 属于自定义 msg 的内容, 如: required|需要 a=b
+	if barIndex := strings.Index(tmp, "|"); barIndex != -1 && barIndex < splitIndex {
+		splitIndex = -1
+	}
 
 	// 如果没有则代表 validName 不为 k=v 类型, 只有一个字段如: required
 	if splitIndex == -1 {
